@@ -29,7 +29,7 @@ def run_one(patch, demo, props):
         for p in props:
             t0 = time.time()
             r = subprocess.run([os.path.join(VERIF, "check"), p, "quick"], capture_output=True, text=True,
-                               env=dict(os.environ, OL_REPO=scratch), cwd=VERIF)
+                               env=dict(os.environ, OL_REPO=scratch, OLVERIF_OUT=os.path.join(scratch, ".verif-out")), cwd=VERIF)
             res["checks"][p] = {"verdict": {0: "missed", 1: "caught", 2: "harness-error"}.get(r.returncode, str(r.returncode)),
                                 "seconds": round(time.time() - t0)}
     finally:
